@@ -1297,6 +1297,12 @@ macro_rules! instance {
 // untouched tails), the last-slot layout E and the empty layout F.
 // @verif tier=quick unwind=9 fs=4865
 instance!(c05_poll, run_poll, [lay_a([32, 33, 49]), lay_a([32, 33, -49]), lay_b([49, 64, 64]), lay_c([64, 32, 0]), lay_d([96, 32, 128])], pad, unc, lim, all, end);
+// C01's subscriber-side obligation (names c01_image_*): what an appender left committed in a term is handed to the handler
+// once, in log order, and the position also passes a padding frame that is the only thing a poll finds (a reader that
+// stays in front of the end-of-term padding never delivers the next term: seeded change C01-b). Same run function and
+// reference as c05_poll, two literal layouts (term end reached exactly; last frame still in flight).
+// @verif tier=quick unwind=9 fs=4865
+instance!(c01_image_poll_hands_over_committed_frames_and_passes_padding, run_poll, [lay_b([49, 64, 64]), lay_a([32, 33, -49])], pad, unc, end);
 // @verif tier=thorough unwind=9 fs=4865
 instance!(c05_poll_more_states, run_poll, [lay_a([32, 0, 49]), lay_a([-32, 33, 49]), lay_a([32, -33, 0]), lay_b([49, 64, 0]), lay_b([49, -64, 64]), lay_c([64, -32, 0]), lay_d([96, 32, -128]), lay_e([32, 0, 0]), lay_e([0, 0, 0]), lay_f()], pad, unc, lim, all, end);
 
